@@ -7,6 +7,7 @@ import (
 	gofs "io/fs"
 	"os"
 	"path/filepath"
+	"sort"
 	"strings"
 
 	"github.com/tonistiigi/fsutil"
@@ -201,6 +202,81 @@ func c10Run(c *core.Ctx) *core.Result {
 	r.Nontrivial = nsel > 0 && nsel < len(items)
 	r.Count("entries", int64(len(items)))
 
+	// the filter on top of a composite of named sub-roots (the build-context
+	// shape): the reference is evaluated on the prefixed listing; pruning one
+	// sub-root must not touch the ones that follow
+	if mode == 0 && len(follow) == 0 && c.R.P(1, 10) {
+		names := []string{"s1", "s1-x", "s2", "t"}
+		core.Shuffle(c.R, names)
+		names = names[:c.R.Range(2, 4)]
+		sort.Strings(names)
+		base, err := fsutil.NewFS(src)
+		if err != nil {
+			r.Inconclusive = err.Error()
+			return r
+		}
+		var dirs []fsutil.Dir
+		var citems []refs.Item
+		var cpaths []string
+		for _, nm := range names {
+			dirs = append(dirs, fsutil.Dir{FS: base, Stat: &types.Stat{Path: nm, Mode: uint32(os.ModeDir | 0755)}})
+			citems = append(citems, refs.Item{Path: nm, IsDir: true})
+			cpaths = append(cpaths, nm)
+			for _, it := range items {
+				citems = append(citems, refs.Item{Path: nm + "/" + it.Path, IsDir: it.IsDir})
+				cpaths = append(cpaths, nm+"/"+it.Path)
+			}
+		}
+		sfs, err := fsutil.SubDirFS(dirs)
+		if err != nil {
+			r.Inconclusive = err.Error()
+			return r
+		}
+		cinc := refs.GenPatterns(c.R, 3, true, cpaths...)
+		cexc := refs.GenPatterns(c.R, 4, true, cpaths...)
+		if c.R.P(1, 3) {
+			cinc = nil
+		}
+		if c.R.P(1, 6) {
+			cexc = nil
+		}
+		if c.R.P(1, 2) {
+			// a whole sub-root that is not the last one is excluded
+			cexc = append(cexc, names[c.R.Intn(len(names)-1)])
+		}
+		cnaive, err := refs.SelectNaive(citems, cinc, cexc)
+		if err != nil {
+			r.Count("invalid_pattern_lists", 1)
+			return r
+		}
+		cincr, err := refs.SelectIncremental(citems, cinc, cexc)
+		if err != nil {
+			r.Inconclusive = "incremental reference: " + err.Error()
+			return r
+		}
+		ffs, err := fsutil.NewFilterFS(sfs, &fsutil.FilterOpt{IncludePatterns: cinc, ExcludePatterns: cexc})
+		if err != nil {
+			r.Violate("filter-error", "NewFilterFS over SubDirFS failed: %v", err)
+			return r
+		}
+		sts, err := walkStats(ffs, "/")
+		if err != nil {
+			r.Violate("filter-error", "filtered walk of a composite of sub-roots failed: %v (inc=%q exc=%q)", err, cinc, cexc)
+			return r
+		}
+		var got []string
+		for _, st := range sts {
+			got = append(got, st.Path)
+		}
+		csample := map[string]any{"tree": t.Paths(), "sub_roots": names, "include": cinc, "exclude": cexc}
+		r.Sample = csample
+		r.FP += "|composite|" + fmt.Sprintf("%q%q%q", names, cinc, cexc)
+		r.Count("composite_walks", 1)
+		n := len(refs.WithAncestors(citems, cnaive))
+		r.Nontrivial = n > 0 && n < len(citems)
+		k1Triage(r, fmt.Sprintf("filtered walk over SubDirFS%q", names), got, func(sel map[string]bool) []string { return refs.WithAncestors(citems, sel) }, cnaive, cincr, csample)
+		return r
+	}
 	// a filtered walk of a sub-target: the restriction of the reference to the
 	// target and what lies below it (ancestors above the target are not part
 	// of such a walk)
